@@ -79,6 +79,22 @@ pub fn render(spec: &Spec, mode: u16) -> Result<Vec<u32>, Failure> {
         s.tilesets.push(Tileset { id: 9, flags: 6, count: 2, tw: spec.w, th: spec.h, base_index: 1, name: "t".into(), ext: (0, 0), pixels: px });
         s.layers[1].kind = LayerKind::Tilemap { tileset: 9 };
         s.frames[0].cels.push(Cel { layer: 1, x: 0, y: 0, opacity: spec.cop, content: CelContent::Tilemap { w: 1, h: 1, bits: 32, masks: [0x1fffffff, 0x20000000, 0x40000000, 0x80000000], tiles: vec![1] }, user_data: None });
+    } else if (spec.back.len() as u64 + spec.lop as u64 * 5 + spec.cop as u64 * 3 + spec.mode as u64 * 7 + spec.src[0] as u64 / 3) % 4 == 1 && spec.w < 60000 && spec.h < 60000 {
+        // a quarter of the probes deliver the same source pixels in a larger cel that overhangs the canvas on all
+        // four sides (k extra columns and rows of other pixels around them, offset (-k, -k)): what lands on the
+        // canvas is the same
+        let k = 1 + (spec.src[0] % 3) as u16;
+        let (w2, h2) = (spec.w + 2 * k, spec.h + 2 * k);
+        let mut px = vec![0u32; w2 as usize * h2 as usize];
+        for (i, p) in px.iter_mut().enumerate() {
+            *p = (i as u32).wrapping_mul(2654435761) | 0x0100_0000;
+        }
+        for y in 0..spec.h as usize {
+            for x in 0..spec.w as usize {
+                px[(y + k as usize) * w2 as usize + x + k as usize] = spec.src[y * spec.w as usize + x];
+            }
+        }
+        s.frames[0].cels.push(Cel { layer: 1, x: -(k as i16), y: -(k as i16), opacity: spec.cop, content: CelContent::Image { w: w2, h: h2, pixels: to_bytes(&px) }, user_data: None });
     } else {
         s.frames[0].cels.push(Cel { layer: 1, x: 0, y: 0, opacity: spec.cop, content: CelContent::Image { w: spec.w, h: spec.h, pixels: to_bytes(&spec.src) }, user_data: None });
     }
